@@ -232,6 +232,127 @@ Example C08_example_run :
   end.
 Proof. vm_compute. repeat split. Qed.
 
+(** * Parent links of the map's tree (pointer-level models TreeLinksModel.v, MapLinksModel.v)
+
+    The tree inside [mstate] is an inductive tree without parent pointers.
+    The theorems below carry the pointer-level result of C02 over to the map.
+    [tree_ops ck ok s o] are the calls of the red-black tree functions that
+    map operation [o] makes in state [s], as operations of the scripted tree
+    system: [Find] (cstl_rbtree_find), [InsertH b] (find + cstl_rbtree_insert
+    of the freshly allocated node [b] below the reported parent), [Erase]
+    (find + __cstl_rbtree_erase of the found node), [Clear].
+    [step_key ck s s'] is the comparison the tree functions see during the
+    operation from [s] to [s']: node [n] has the canonical key of its stored
+    [key] field (before the operation, or, for the node allocated by the
+    operation, after it).  [lstep key RB] runs the tree code on a node memory
+    {p; l; r; colour}; [lreachk sl]: [sl] is reached from the empty tree by
+    completed [lstep] operations; [rep m None t]: the memory holds [t], every
+    node's [p] being the address of its parent (NULL at the root).
+    [mlstep ck ok] is map.c on that memory: the map functions call the
+    pointer-level rbtree functions ([l_find], [l_rb_insert], [l_rb_erase]),
+    and the comparison reads the [key] field of the nodes from the node
+    table. *)
+From Cstl Require Import TreeSysProofs TreeLinksModel TreeLinksProofs TreeLinksSim MapLinksModel MapLinksProofs.
+
+Section C08_links.
+  Variable ck : nat -> Z.
+  Variable ok : nat -> N -> bool.
+  Notation step := (MapModel.step ck ok).
+  Notation mlstep := (MapLinksModel.mlstep ck ok).
+  Notation map_inv := (MapProofs.map_inv ck).
+
+  (** every operation acts on the (tree, size field) component exactly as
+      its tree calls act in the scripted red-black tree system of C02, under
+      a key function that agrees with the stored keys on every node linked
+      before and on every node linked after the operation *)
+  Theorem C08_links_tree_calls s o s' out :
+    map_inv s -> step s o = Done s' out ->
+    keyed (step_key ck s s') (inorder (mt s)) /\ keyed (step_key ck s s') (inorder (mt s')) /\
+    exists touts,
+      run (TreeModel.step (step_key ck s s') RB) (mkS (mt s) (msz s)) (tree_ops ck ok s o)
+      = (Done (mkS (mt s') (msz s')) [], touts).
+  Proof. exact (map_step_tree_calls ck ok s o s' out). Qed.
+
+  (** ... and the pointer-level tree code, run for these calls from any
+      memory that represents the old tree, ends in a memory that represents
+      the new tree *)
+  Theorem C08_links_step s o s' out sl :
+    map_inv s -> step s o = Done s' out ->
+    lsz sl = msz s /\ lroot sl = raddr (mt s) /\ rep (lm sl) None (mt s) ->
+    exists sl' touts,
+      run (lstep (step_key ck s s') RB) sl (tree_ops ck ok s o) = (Done sl' [], touts) /\
+      lsz sl' = msz s' /\ lroot sl' = raddr (mt s') /\ rep (lm sl') None (mt s').
+  Proof. exact (map_step_links ck ok s o s' out sl). Qed.
+
+  (** the tree of every map state reached by any operation list, under any
+      allocator oracle, is held by a node memory that the pointer-level tree
+      code produces: the root's parent link is NULL, every child's parent
+      link points back at its parent, and the tree satisfies the red-black
+      rules *)
+  Theorem C08_links_represented ops s o1 outs :
+    run step m_init ops = (Done s o1, outs) ->
+    exists sl,
+      lreachk sl /\ lsz sl = msz s /\ lroot sl = raddr (mt s) /\ rep (lm sl) None (mt s) /\
+      (forall r, lroot sl = Some r -> n_p (mget (lm sl) r) = None) /\
+      (forall a, In a (addrs (mt s)) ->
+         (forall b, n_l (mget (lm sl) a) = Some b -> n_p (mget (lm sl) b) = Some a) /\
+         (forall b, n_r (mget (lm sl) a) = Some b -> n_p (mget (lm sl) b) = Some a)) /\
+      root_black (mt s) /\ no_red_red (mt s) /\ exists n, black_height (mt s) n.
+  Proof. exact (map_links_represented ck ok ops s o1 outs). Qed.
+
+  (** every history of the pointer-level map model is the history of the
+      functional map model: same outputs, same outcome (no fault, no abort),
+      and at the end the node memory holds the functional model's tree;
+      size field, node table and heap are equal *)
+  Theorem C08_links_run_refines ops :
+    match run step m_init ops with
+    | (Done s o1, outs) =>
+      exists sl, run mlstep ml_init ops = (Done sl o1, outs) /\
+                 lsz (ml sl) = msz s /\ lroot (ml sl) = raddr (mt s) /\ rep (lm (ml sl)) None (mt s) /\
+                 mltab sl = mtab s /\ mlal sl = mal s
+    | (Precond, outs) => run mlstep ml_init ops = (Precond, outs)
+    | _ => False
+    end.
+  Proof. exact (ml_run_refines ck ok ops). Qed.
+
+  (** in every state the pointer-level map model reaches: the decoder
+      succeeds (it rejects a wrong parent link, a non-NULL root parent, a node
+      linked twice); spelled out: root's parent NULL, every child's parent
+      link points back at its parent; the linked structure satisfies the
+      red-black rules; the size field counts the linked nodes, and node memory
+      exists exactly for them *)
+  Theorem C08_links_parent_links sl :
+    reach mlstep ml_init sl ->
+    exists t,
+      decode (nkey ck (mltab sl)) (ml sl) = Some t /\ lroot (ml sl) = raddr t /\ rep (lm (ml sl)) None t /\
+      (forall r, lroot (ml sl) = Some r -> n_p (mget (lm (ml sl)) r) = None) /\
+      (forall a, In a (addrs t) ->
+         (forall b, n_l (mget (lm (ml sl)) a) = Some b -> n_p (mget (lm (ml sl)) b) = Some a) /\
+         (forall b, n_r (mget (lm (ml sl)) a) = Some b -> n_p (mget (lm (ml sl)) b) = Some a)) /\
+      root_black t /\ no_red_red t /\ (exists n, black_height t n) /\
+      lsz (ml sl) = N.of_nat (length (inorder t)) /\
+      (forall n, tab_get (mltab sl) n <> None <-> In (addr n) (addrs t)).
+  Proof. exact (ml_parent_links ck ok sl). Qed.
+End C08_links.
+
+(** Non-vacuity: a 16-operation history (colliding keys, a failed allocation,
+    erases by key and through the iterator) on the pointer-level map model
+    gives the outputs of the functional model and ends in a memory that
+    decodes to the functional model's 5-node tree. *)
+Example C08_links_example_run :
+  let ck := ck_mod 7 in
+  let ok := script_oracle [1%nat] None in
+  let ops := [MInsert 3 0 true; MInsert 1 1 true; MInsert 1 2 true; MInsert 8 3 true; MInsert 4 0 false;
+              MInsert 2 1 true; MInsert 6 1 true; MInsert 5 2 false; MInsert 0 2 false; MErase 9 true;
+              MFind 8; MErase 3 true; MEraseIter 4; MInsert 12 2 true; MInsert 9 3 true; MSize] in
+  match run (MapLinksModel.mlstep ck ok) ml_init ops, run (MapModel.step ck ok) m_init ops with
+  | (Done sl _, o1), (Done s _, o2) =>
+    decode (nkey ck (mltab sl)) (ml sl) = Some (mt s) /\ o1 = o2 /\
+    length (inorder (mt s)) = 5%nat /\ lsz (ml sl) = 5%N
+  | _, _ => False
+  end.
+Proof. vm_compute. repeat split. Qed.
+
 Print Assumptions C08_invariant_meaning.
 Print Assumptions C08_lookup_unique.
 Print Assumptions C08_step_refines.
@@ -249,3 +370,8 @@ Print Assumptions C08_reachable_inv.
 Print Assumptions C08_never_fault.
 Print Assumptions C08_run_refines.
 Print Assumptions C08_run_safe.
+Print Assumptions C08_links_tree_calls.
+Print Assumptions C08_links_step.
+Print Assumptions C08_links_represented.
+Print Assumptions C08_links_run_refines.
+Print Assumptions C08_links_parent_links.
